@@ -417,14 +417,20 @@ def part1_codegen(ctx, report):
         scripted = rng.random() < 0.5
         mode = rng.choice(["pickle", "deepcopy", "torchsave", "direct"])
         fmt = lambda l: ",".join(l) if l else "-"  # noqa: E731
+        # what compile(m) in place does to generated fx children: some of them are replaced by their TorchScript before the copy
+        swap = sorted(set(n_ for n_ in gen if rng.random() < 0.6)) if (not scripted and gen and rng.random() < 0.6) else []
         lines.append(f"cg {_bit(scripted)} {fmt(pre)} {fmt(gen)} {fmt(post)} {fmt(extra)} "
-                     f"{'direct' if mode == 'direct' else 'pickle'}")
-        cfgs.append(dict(scripted=scripted, pre=pre, gen=gen, post=post, extra=extra, mode=mode))
+                     f"{'direct' if mode == 'direct' else 'pickle'}" + (f" {fmt(swap)}" if swap else ""))
+        cfgs.append(dict(scripted=scripted, pre=pre, gen=gen, post=post, extra=extra, mode=mode, scripted_in_place_before_copy=swap))
         try:
             e3nn.set_optimization_defaults(jit_script_fx=scripted)
             m = ToyC(pre, gen, post, extra)
         finally:
             _reset_defaults(e3nn)
+        for n_ in swap:
+            ch = getattr(m, n_)
+            if isinstance(ch, torch.fx.GraphModule):
+                setattr(m, n_, torch.jit.script(ch))
         before = [(k, id(v)) for k, v in m._modules.items()]
         try:
             with warnings.catch_warnings():
@@ -458,6 +464,8 @@ def part1_codegen(ctx, report):
                 report("setstate/ToyCodeGenMixin/shares-_modules", {"cfg": cfgs[-1]})
         except (KeyError, AssertionError, AttributeError) as e:
             real = _err(e)
+        except Exception as e:  # noqa: BLE001   any other exception of the real copy protocol is an outcome to compare, not a crash of the check
+            real = "error:" + type(e).__name__
         reals.append(real)
         ctx.count("cg:" + real.split(" ")[0])
     got = ctx.run_driver("C14", lines)
